@@ -57,7 +57,7 @@ theorem whole_sf_processMessage (env : PEnv) (orc : EvalOracles) (expr : Expr) (
   | some ms =>
     simp only [afterParse]
     obtain ⟨h1, h2, h3, h4, h5', -⟩ := hms ms rfl
-    refine wpS_bind_mono (wpS_of_wp b1 (World.wp_evalFoot (msgEnv env orc ms.path) orc.timeFormat expr ms.msg ms.flags w00)) ?_
+    refine wpS_bind_mono (wpS_of_wp b1 (World.wp_evalFoot (msgEnv env orc ms.path) expr ms.msg ms.flags w00)) ?_
     rintro b1' ev w0 ⟨ef, as, hev⟩
     have pf : WholePF w w0 := pf00.of_evalFoot ef
     have h5 : w.handles.length < w0.handles.length := Nat.lt_of_lt_of_le h5' ef.len
